@@ -107,6 +107,28 @@ theorem stepFrame_hasPolicy {pid id : String} {S S' : Store} (h : StepFrame pid 
   simp only [Function.comp]
   by_cases hp : p.id = pid <;> simp [hp]
 
+theorem pids_setRules (ps : List Policy) (pid : String) (F : List Rule → List Rule) :
+    pids (setRules ps pid F) = pids ps := by
+  unfold pids setRules
+  rw [List.map_map]
+  apply List.map_congr_left
+  intro p _
+  simp only [Function.comp]
+  by_cases h : p.id = pid <;> simp [h]
+
+theorem stepFrame_pids {pid : String} {S S' : Store} (h : StepFrame pid S S') : pids S'.policies = pids S.policies := by
+  obtain ⟨F, hF⟩ := h.policies
+  rw [hF, pids_setRules]
+
+theorem hasPolicy_mem {S : Store} {id : String} : hasPolicy S id = true ↔ id ∈ pids S.policies := by
+  unfold hasPolicy pids
+  rw [List.any_eq_true]
+  constructor
+  · rintro ⟨p, hp, he⟩; exact List.mem_map.mpr ⟨p, hp, by simpa using he⟩
+  · intro h
+    obtain ⟨p, hp, he⟩ := List.mem_map.mp h
+    exact ⟨p, hp, by simpa using he⟩
+
 /-- The loop over the device policies. -/
 theorem overA_spec {ctx : Ctx} {G0 : List Group} (hc : CtxOK ctx G0)
     (hdiff : ∀ n m eq, validScript n m eq (ctx.diff n m eq) = true) (T : Config) :
@@ -117,6 +139,7 @@ theorem overA_spec {ctx : Ctx} {G0 : List Group} (hc : CtxOK ctx G0)
         Mono st (overA ctx T ps st).1 ∧ S'.services = S.services ∧ GroupsLE S S' ∧
         (∀ id, id ∉ pids ps → findPolicy S'.policies id = findPolicy S.policies id) ∧
         (∀ id, hasPolicy S' id = true → hasPolicy S id = true) ∧
+        ((pids S.policies).Nodup → (pids S'.policies).Nodup) ∧
         (∀ pa ∈ ps, match findPolicyLast T.policies pa.id with
           | none => findPolicy S'.policies pa.id = none
           | some pb => Realised ctx (overA ctx T ps st).1.nod S' pa.id pb.rules) := by
@@ -124,7 +147,7 @@ theorem overA_spec {ctx : Ctx} {G0 : List Group} (hc : CtxOK ctx G0)
   induction ps with
   | nil =>
     intro S st _ hinv _ _ _
-    exact ⟨S, rfl, hinv, Mono.refl _, rfl, GroupsLE.refl _, fun _ _ => rfl, fun _ h => h, by simp⟩
+    exact ⟨S, rfl, hinv, Mono.refl _, rfl, GroupsLE.refl _, fun _ _ => rfl, fun _ h => h, fun h => h, by simp⟩
   | cons pa rest ih =>
     intro S st hnd hinv hA hB habort
     have hnd0 : (pa.id :: pids rest).Nodup := hnd
@@ -141,11 +164,11 @@ theorem overA_spec {ctx : Ctx} {G0 : List Group} (hc : CtxOK ctx G0)
       have hex : exec S (.deletePolicy pa.id) = .ok S1 := by simp [exec, hhas, S1]
       have hf1 : ∀ id, id ≠ pa.id → findPolicy S1.policies id = findPolicy S.policies id :=
         fun id h => findPolicy_filter_ne S.policies pa.id id h
-      obtain ⟨S', hrun, hinv', hmono, hsv, hle, hframe, hnonew, hres⟩ :=
+      obtain ⟨S', hrun, hinv', hmono, hsv, hle, hframe, hnonew, hndp, hres⟩ :=
         ih S1 st hnd' hinv
           (fun p' hp' => (hA p' (List.mem_cons_of_mem _ hp')).mono (hf1 _ (hne_rest p' hp')) rfl (GroupsLE.refl _))
           (fun pb hpb => (hB pb hpb).mono rfl (GroupsLE.refl _)) habort
-      refine ⟨S', ?_, hinv', hmono, hsv, hle, ?_, ?_, ?_⟩
+      refine ⟨S', ?_, hinv', hmono, hsv, hle, ?_, ?_, ?_, ?_⟩
       · simp only [run, hex]; exact hrun
       · intro id hid
         have h1 : id ≠ pa.id := fun e => hid (e ▸ List.mem_cons_self)
@@ -158,6 +181,10 @@ theorem overA_spec {ctx : Ctx} {G0 : List Group} (hc : CtxOK ctx G0)
         by_cases e : id = pa.id
         · exact e ▸ ⟨p0, hp0⟩
         · exact ⟨p, by rw [← hf1 id e]; exact hp⟩
+      · intro h
+        apply hndp
+        show (pids (S.policies.filter (·.id != pa.id))).Nodup
+        exact (List.Sublist.map _ (List.filter_sublist)).nodup h
       · intro p' hp'
         rcases List.mem_cons.mp hp' with e | e
         · subst e
@@ -195,12 +222,12 @@ theorem overA_spec {ctx : Ctx} {G0 : List Group} (hc : CtxOK ctx G0)
       generalize hD : diffRules ctx st pa pb = D at *
       obtain ⟨st1, c1⟩ := D
       simp only at hrun1 hinv1 hmono1 hreal1 habort
-      obtain ⟨S', hrun, hinv', hmono, hsv, hle, hframe, hnonew, hres⟩ :=
+      obtain ⟨S', hrun, hinv', hmono, hsv, hle, hframe, hnonew, hndp, hres⟩ :=
         ih S1 st1 hnd' hinv1
           (fun p' hp' => (hA p' (List.mem_cons_of_mem _ hp')).mono
             (stepFrame_findPolicy_ne hfr1 (hne_rest p' hp')) hfr1.services hfr1.groups)
           (fun pb' hpb' => (hB pb' hpb').mono hfr1.services hfr1.groups) habort
-      refine ⟨S', ?_, hinv', hmono1.trans hmono, hsv.trans hfr1.services, hfr1.groups.trans hle, ?_, ?_, ?_⟩
+      refine ⟨S', ?_, hinv', hmono1.trans hmono, hsv.trans hfr1.services, hfr1.groups.trans hle, ?_, ?_, ?_, ?_⟩
       · rw [run_append hrun1]; exact hrun
       · intro id hid
         have h1 : id ≠ pa.id := fun e => hid (e ▸ List.mem_cons_self)
@@ -209,6 +236,9 @@ theorem overA_spec {ctx : Ctx} {G0 : List Group} (hc : CtxOK ctx G0)
       · intro id h
         have := hnonew id h
         rwa [stepFrame_hasPolicy hfr1] at this
+      · intro h
+        apply hndp
+        rw [stepFrame_pids hfr1]; exact h
       · intro p' hp'
         rcases List.mem_cons.mp hp' with e | e
         · subst e
@@ -228,13 +258,14 @@ theorem overB_spec {ctx : Ctx} {G0 : List Group} (hc : CtxOK ctx G0) (A : Config
         Mono st (overB ctx A ps st).1 ∧ S'.services = S.services ∧ GroupsLE S S' ∧
         (∀ id, id ∉ pids ps → findPolicy S'.policies id = findPolicy S.policies id) ∧
         (∀ id, hasPolicy S' id = true → hasPolicy S id = true ∨ id ∈ pids ps) ∧
+        ((pids S.policies).Nodup → (pids S'.policies).Nodup) ∧
         (∀ pb ∈ ps, A.policies.any (·.id == pb.id) = false →
           Realised ctx (overB ctx A ps st).1.nod S' pb.id pb.rules) := by
   intro ps
   induction ps with
   | nil =>
     intro S st _ hinv _ _
-    exact ⟨S, rfl, hinv, Mono.refl _, rfl, GroupsLE.refl _, fun _ _ => rfl, fun _ h => Or.inl h, by simp⟩
+    exact ⟨S, rfl, hinv, Mono.refl _, rfl, GroupsLE.refl _, fun _ _ => rfl, fun _ h => Or.inl h, fun h => h, by simp⟩
   | cons pb rest ih =>
     intro S st hnd hinv hB hnew
     have hnd0 : (pb.id :: pids rest).Nodup := hnd
@@ -245,10 +276,10 @@ theorem overB_spec {ctx : Ctx} {G0 : List Group} (hc : CtxOK ctx G0) (A : Config
     cases hA : A.policies.any (·.id == pb.id) with
     | true =>
       simp only [if_true]
-      obtain ⟨S', hrun, hinv', hmono, hsv, hle, hframe, hnonew, hres⟩ :=
+      obtain ⟨S', hrun, hinv', hmono, hsv, hle, hframe, hnonew, hndp, hres⟩ :=
         ih S st hnd' hinv (fun p' hp' => hB p' (List.mem_cons_of_mem _ hp'))
           (fun p' hp' h => hnew p' (List.mem_cons_of_mem _ hp') h)
-      refine ⟨S', hrun, hinv', hmono, hsv, hle, ?_, ?_, ?_⟩
+      refine ⟨S', hrun, hinv', hmono, hsv, hle, ?_, ?_, hndp, ?_⟩
       · intro id hid
         exact hframe id fun h => hid (List.mem_cons_of_mem _ h)
       · intro id h
@@ -275,12 +306,12 @@ theorem overB_spec {ctx : Ctx} {G0 : List Group} (hc : CtxOK ctx G0) (A : Config
       have hself : findPolicy S1.policies pb.id = some ⟨pb.id, L⟩ := by
         rw [hpol1, findPolicy_append_single, hasPolicy_false_iff.mp (hnew pb List.mem_cons_self hA)]
         simp
-      obtain ⟨S', hrun, hinv', hmono, hsv, hle, hframe, hnonew, hres⟩ :=
+      obtain ⟨S', hrun, hinv', hmono, hsv, hle, hframe, hnonew, hndp, hres⟩ :=
         ih S1 st1 hnd' hinv1 (fun p' hp' => (hB p' (List.mem_cons_of_mem _ hp')).mono hsv1 hle1)
           (fun p' hp' h => by
             rw [hasPolicy_false_iff, hf1 _ (hne_rest p' hp'), ← hasPolicy_false_iff]
             exact hnew p' (List.mem_cons_of_mem _ hp') h)
-      refine ⟨S', ?_, hinv', hmono1.trans hmono, hsv.trans hsv1, hle1.trans hle, ?_, ?_, ?_⟩
+      refine ⟨S', ?_, hinv', hmono1.trans hmono, hsv.trans hsv1, hle1.trans hle, ?_, ?_, ?_, ?_⟩
       · rw [run_append hrun1]; exact hrun
       · intro id hid
         have h1 : id ≠ pb.id := fun e => hid (e ▸ List.mem_cons_self)
@@ -294,6 +325,17 @@ theorem overB_spec {ctx : Ctx} {G0 : List Group} (hc : CtxOK ctx G0) (A : Config
             obtain ⟨p, hp⟩ := h'
             exact Or.inl ⟨p, by rw [← hf1 id e]; exact hp⟩
         · exact Or.inr (List.mem_cons_of_mem _ h')
+      · intro h
+        apply hndp
+        rw [hpol1]
+        simp only [pids, List.map_append, List.map_cons, List.map_nil]
+        rw [List.nodup_append]
+        refine ⟨h, by simp, ?_⟩
+        intro a ha b hb e
+        simp at hb; subst hb; subst e
+        have := hnew pb List.mem_cons_self hA
+        rw [Bool.eq_false_iff] at this
+        exact this (hasPolicy_mem.mpr ha)
       · intro p' hp' hA'
         rcases List.mem_cons.mp hp' with e | e
         · subst e
@@ -599,5 +641,76 @@ theorem planSvc_spec (aS : List Service) :
               rcases List.mem_cons.mp h with h | h
               · exact e h
               · exact h2 h
+
+
+/-! ### Removal of what is no longer needed -/
+
+theorem delServices_spec :
+    ∀ (ds : List String) (S : Store), (∀ id ∈ ds, hasService S id = true ∧ serviceUsed S id = false) → ds.Nodup →
+      ∃ S', run S (ds.map Call.deleteService) = some S' ∧ S'.groups = S.groups ∧ S'.policies = S.policies ∧
+        S'.services = S.services.filter (fun s => !ds.contains s.id) := by
+  intro ds
+  induction ds with
+  | nil =>
+    intro S _ _
+    refine ⟨S, rfl, rfl, rfl, ?_⟩
+    simp only [List.contains_nil, Bool.not_false]
+    exact (List.filter_eq_self.mpr fun _ _ => rfl).symm
+  | cons d rest ih =>
+    intro S h hn
+    obtain ⟨hd, hrest⟩ := List.nodup_cons.mp hn
+    obtain ⟨h1, h2⟩ := h d List.mem_cons_self
+    let S1 : Store := { S with services := S.services.filter (·.id != d) }
+    have hex : exec S (.deleteService d) = .ok S1 := by simp [exec, h1, h2, S1]
+    obtain ⟨S', hrun, hg, hp, hs⟩ := ih S1 (by
+      intro id hid
+      obtain ⟨h3, h4⟩ := h id (List.mem_cons_of_mem _ hid)
+      refine ⟨?_, h4⟩
+      rw [hasService_iff] at h3 ⊢
+      obtain ⟨s, hs, he⟩ := List.mem_map.mp h3
+      refine List.mem_map.mpr ⟨s, List.mem_filter.mpr ⟨hs, ?_⟩, he⟩
+      have : s.id ≠ d := by rw [he]; exact fun e => hd (e ▸ hid)
+      simpa using this) hrest
+    refine ⟨S', by simp only [List.map_cons, run, hex]; exact hrun, hg, hp, ?_⟩
+    rw [hs]
+    show (S.services.filter (·.id != d)).filter _ = _
+    rw [List.filter_filter]
+    apply List.filter_congr
+    intro s _
+    by_cases e : s.id = d <;> simp [e]
+
+theorem delGroups_spec :
+    ∀ (ds : List String) (S : Store), (∀ id ∈ ds, hasGroup S id = true ∧ groupUsed S id = false) → ds.Nodup →
+      ∃ S', run S (ds.map Call.deleteGroup) = some S' ∧ S'.services = S.services ∧ S'.policies = S.policies ∧
+        S'.groups = S.groups.filter (fun g => !ds.contains g.id) := by
+  intro ds
+  induction ds with
+  | nil =>
+    intro S _ _
+    refine ⟨S, rfl, rfl, rfl, ?_⟩
+    simp only [List.contains_nil, Bool.not_false]
+    exact (List.filter_eq_self.mpr fun _ _ => rfl).symm
+  | cons d rest ih =>
+    intro S h hn
+    obtain ⟨hd, hrest⟩ := List.nodup_cons.mp hn
+    obtain ⟨h1, h2⟩ := h d List.mem_cons_self
+    let S1 : Store := { S with groups := S.groups.filter (·.id != d) }
+    have hex : exec S (.deleteGroup d) = .ok S1 := by simp [exec, h1, h2, S1]
+    obtain ⟨S', hrun, hsv, hp, hg⟩ := ih S1 (by
+      intro id hid
+      obtain ⟨h3, h4⟩ := h id (List.mem_cons_of_mem _ hid)
+      refine ⟨?_, h4⟩
+      rw [hasGroup_iff] at h3 ⊢
+      obtain ⟨g, hg, he⟩ := List.mem_map.mp h3
+      refine List.mem_map.mpr ⟨g, List.mem_filter.mpr ⟨hg, ?_⟩, he⟩
+      have : g.id ≠ d := by rw [he]; exact fun e => hd (e ▸ hid)
+      simpa using this) hrest
+    refine ⟨S', by simp only [List.map_cons, run, hex]; exact hrun, hsv, hp, ?_⟩
+    rw [hg]
+    show (S.groups.filter (·.id != d)).filter _ = _
+    rw [List.filter_filter]
+    apply List.filter_congr
+    intro g _
+    by_cases e : g.id = d <;> simp [e]
 
 end NA.Nsx
